@@ -162,4 +162,21 @@ func init() {
 	specs = append(specs, Spec{Area: "UefiTotalVisitors", Pkg: "pkg/visitors", Items: g(
 		"Validate.Visit", "Extract.Visit", "Extract.extractBinary", "JSON.Visit", "Table.Visit", "Table.printFirmware",
 		"printRowLayout", "printRowStd", "Cat.Visit", "Assemble.Visit")})
+	// follow-up wp-c05b: the Go-semantics model of Assemble (TotalAsm.lean) and of the walkers over NVAR nodes and
+	// the ME partition table (TotalNvarWalk.lean); `blockMapEnd` of validate.go (TotalWalk.lean)
+	specs = append(specs, Spec{Area: "UefiTotalAsm", Pkg: "pkg/uefi", Items: append(g(
+		"Section.GenSecHeader", "SectionGUIDDefined.GetBinHeaderLen", "File.SetSize", "File.ChecksumAndAssemble", "File.HeaderLen",
+		"CreatePadFile", "FirmwareVolume.InsertFile", "FirmwareVolume.GetErasePolarity", "BIOSRegion.FirstFV",
+		"Write3Size", "Align", "Erase", "SetErasePolarity",
+		"NVar.Assemble", "NVar.IsValid", "NVarStore.GetGUIDStoreBuf",
+		"FirmwareVolume.ApplyChildren", "File.ApplyChildren", "Section.ApplyChildren", "BIOSRegion.ApplyChildren",
+		"FlashImage.ApplyChildren", "NVar.ApplyChildren", "NVarStore.ApplyChildren",
+		"MEFPT.Apply", "MEFPT.ApplyChildren", "MERegion.Apply", "MERegion.ApplyChildren",
+	), gg(
+		"Section.GenSecHeader", "File.SetSize", "File.ChecksumAndAssemble", "CreatePadFile", "FirmwareVolume.InsertFile",
+		"BIOSRegion.FirstFV", "Write3Size", "SetErasePolarity", "NVar.Assemble", "NVarStore.GetGUIDStoreBuf",
+		"MERegion.ApplyChildren", "File.ApplyChildren", "NVar.ApplyChildren",
+	)...)})
+	specs = append(specs, Spec{Area: "UefiTotalAsmVisitors", Pkg: "pkg/visitors", Items: append(g("blockMapEnd"),
+		gg("Assemble.Visit", "Extract.Visit", "blockMapEnd", "Validate.Visit")...)})
 }
